@@ -1926,6 +1926,7 @@ impl<'a> Parser<'a> {
                     specifiers: vec![],
                     source: None,
                     namespace_export: None,
+                    star_export: false,
                     default: false,
                     type_only: false,
                     span,
@@ -1986,6 +1987,7 @@ impl<'a> Parser<'a> {
                 specifiers: vec![],
                 source: None,
                 namespace_export: None,
+                star_export: false,
                 default: true,
                 type_only,
                 span,
@@ -2034,6 +2036,7 @@ impl<'a> Parser<'a> {
                 specifiers,
                 source,
                 namespace_export: None,
+                star_export: false,
                 default: false,
                 type_only,
                 span,
@@ -2058,6 +2061,7 @@ impl<'a> Parser<'a> {
                 declaration: None,
                 specifiers: vec![],
                 source,
+                star_export: namespace_export.is_none(),
                 namespace_export,
                 default: false,
                 type_only,
@@ -2107,6 +2111,7 @@ impl<'a> Parser<'a> {
             specifiers: vec![],
             source: None,
             namespace_export: None,
+            star_export: false,
             default: false,
             type_only,
             span,
